@@ -160,8 +160,15 @@ def random_string_prog(rnd):
     body = []
     for _ in range(rnd.randrange(1, 6)):
         n = rnd.choice((0, 1, 2, 5, 17, 64, rnd.randrange(65)))
-        pool = rnd.choice((bytes(range(256)), b'\\"\'\n\r;\x00\x7f\x80\xffab ', bytes(range(32, 127))))
-        t = ''.join(chr(rnd.choice(pool)) for _ in range(n))
+        pool = rnd.choice((bytes(range(256)), b'\\"\'\n\r;\x00\x7f\x80\xffab ', bytes(range(32, 127)), None))
+        if pool is None:
+            # well-formed non-ASCII text (2-, 3- and 4-byte characters), which the renderer often spells raw: what the
+            # process-environment seam (locale encoding of the compiling process) needs in order to bite
+            text = ''.join(rnd.choice('\u00e9\u00fc\u00df\u00f1\u03a9\u0436\u4e2d\u65e5\u20ac\u2603\U0001f389\U0001d11e a-z') for _ in range(n // 2 + 1))
+            t = text.encode('utf-8').decode('latin-1')
+            n = len(t)
+        else:
+            t = ''.join(chr(rnd.choice(pool)) for _ in range(n))
         body += show_string(('str', t), min(n, 8))
         if n:
             i = rnd.randrange(n)
